@@ -620,7 +620,7 @@ func genSide(t *rapid.T, label string, server bool, family string) scen.EP {
 	ep.Suites = genList(t, label+"suites", suiteAlphabet, 2)
 	ep.Curves = genList(t, label+"curves", []uint16{0x001d, 0x0017, 0x0018, 0x11ec}, 1)
 	ep.EMS = rapid.SampledFrom([]int{0, 0, 1, 2}).Draw(t, label+"ems")
-	ep.ALPN = genList(t, label+"alpn", []string{"h2", "webrtc", "coap"}, 1)
+	ep.ALPN = genList(t, label+"alpn", []string{"h2", "http/1.1", "webrtc", "coap"}, 1)
 	ep.SRTP = genList(t, label+"srtp", []uint16{1, 2, 7, 8}, 1)
 	if family == "psk" {
 		ep.PSK, ep.PSKHint = "negotiation-psk-01", "hint-"+label
@@ -693,9 +693,26 @@ func repair(ep *scen.EP, family string) {
 }
 
 func gen(t *rapid.T) Case {
-	family := rapid.SampledFrom([]string{"cert", "cert", "cert", "psk"}).Draw(t, "family")
+	family := rapid.SampledFrom([]string{"cert", "cert", "cert", "psk", "mixed"}).Draw(t, "family")
 
-	c := Case{C: genSide(t, "c", false, family), S: genSide(t, "s", true, family)}
+	var c Case
+	if family == "mixed" {
+		// the server holds both a pre-shared key and a certificate; the client has one of the two
+		c.S = genSide(t, "s", true, "psk")
+		c.S.Cert = rapid.SampledFrom([]string{"ecdsa", "rsa", "rsa", "ed25519"}).Draw(t, "mixedcert")
+		c.S.Suites = genList(t, "mixedsuites", []uint16{0x00a8, 0xccab, 0xc037, 0xc02b, 0xc02c, 0xcca9, 0xc02f, 0xc030, 0xc014}, 1000000)
+		c.S.MinVer, c.S.MaxVer = 12, 12
+		if rapid.Bool().Draw(t, "mixedclientpsk") {
+			c.C = genSide(t, "c", false, "psk")
+		} else {
+			c.C = genSide(t, "c", false, "cert")
+			c.C.Suites = genList(t, "mixedcsuites", []uint16{0xc02b, 0xc02c, 0xcca9, 0xc02f, 0xc030, 0xc014}, 3)
+		}
+		c.C.MinVer, c.C.MaxVer = 12, 12
+		family = "psk" // for the repair step: the server must keep a PSK suite
+	} else {
+		c = Case{C: genSide(t, "c", false, family), S: genSide(t, "s", true, family)}
+	}
 	if rapid.IntRange(0, 9).Draw(t, "repair") != 0 {
 		repair(&c.C, family)
 		repair(&c.S, family)
